@@ -58,7 +58,9 @@ def comps(k, style, vs=None):
     vs = vs or V
     pairs = list(itertools.combinations(range(k), 2))
     out = []
-    cyc = ["{a} != {b}", "{a} < {b}", "not {a} = {b}", "{b} > {a}", "{b} != {a}", "not {b} = {a}"]
+    both = ["{a} != {b}", "{a} < {b}", "not {a} = {b}", "{b} > {a}", "{b} != {a}", "not {b} = {a}"]
+    strict = ["{a} != {b}", "not {b} = {a}", "{b} != {a}", "not {a} = {b}"]
+    order = ["{a} < {b}", "{b} > {a}"]
     special = ("cyc", "ltmix", "nechainlit", "ltchainlit")
     for n, (i, j) in enumerate([] if style in special else pairs):
         a, b = vs[i], vs[j]
@@ -74,8 +76,12 @@ def comps(k, style, vs=None):
             out.append(f"{b} > {a}")
         elif style == "noteq":
             out.append(f"not {a} = {b}")
-        elif style == "mixed":
-            out.append(cyc[(n + (0 if k > 2 else 4)) % len(cyc)].format(a=a, b=b))
+        elif style == "mixed":  # all of the `!=` family
+            out.append(strict[(n + (0 if k > 2 else 1)) % len(strict)].format(a=a, b=b))
+        elif style == "mixedlt":  # all of the `<` family
+            out.append(order[(n + (0 if k > 2 else 1)) % len(order)].format(a=a, b=b))
+        elif style == "mixedboth":  # `!=` and `<` on one position: nothing may be rewritten
+            out.append(both[n % len(both)].format(a=a, b=b))
         elif style == "notgt":  # a <= b : no proof of inequality
             out.append(f"not {a} > {b}")
         elif style == "notlt":  # a >= b : no proof of inequality
@@ -125,8 +131,6 @@ def defs(mode, pos="first"):
     if mode == "choice":
         return ["{ p(X,Y) } :- d(X), e(Y)."], []
     if mode == "choicecond":
-        return ["{ p(X,Y) : d(X) } :- e(Y)."], []
-    if mode == "bounded":
         return ["{ p(X,Y) : d(X) } 2 :- e(Y)."], []
     if mode == "derived":
         return ["{ s(X) } :- d(X).", "p(X,Y) :- s(X), e(Y)."], []
@@ -139,9 +143,9 @@ def defs(mode, pos="first"):
     if mode == "aggdep":
         return ["{ s(X) } :- d(X).", "p(X,Y) :- d(X), e(Y), 1 <= #count { Z : s(Z) }."], []
     if mode == "choice+input":  # p is choice-defined AND given by the instance
-        return ["{ p(X,Y) : e(Y) } :- d(X)."], [["p", 2]]
+        return ["{ p(X,Y) : e(Y) } :- d(X), on."], [["p", 2]]
     if mode == "derived+input":
-        return ["{ s(X) } :- d(X).", "p(X,Y) :- e(Y), s(X)."], [["p", 2]]
+        return ["{ s(X) } :- d(X), on.", "p(X,Y) :- e(Y), s(X)."], [["p", 2]]
     if mode == "selfrec":  # the rewritten rule itself is recursive through p
         return ["{ q(X,Y) } :- d(X), e(Y).", "p(X,Y) :- q(X,Y)."], []
     if mode == "facts4":
@@ -188,9 +192,11 @@ def programs():
 
     # ----------------------------------------------------------------- A: core, firing side
     for k, style, pos, head in itertools.product(
-        [2, 3, 4], ["ne", "lt", "gt", "noteq", "mixed"], ["first", "last"], [":-", "h(X)"]
+        [2, 3, 4], ["ne", "lt", "gt", "noteq", "mixed", "mixedlt"], ["first", "last"], [":-", "h(X)"]
     ):
-        if k == 4 and (style in ("gt", "noteq") or (pos == "first") != (head == ":-")):
+        if k == 4 and (style in ("gt", "noteq", "mixedlt") or (pos == "first") != (head == ":-")):
+            continue
+        if k < 4 and pos == "last" and head == ":-":
             continue
         want = "input" if (head == ":-") == (pos == "first") else "choice"
         if k == 4:
@@ -202,9 +208,9 @@ def programs():
     for k, style in itertools.product(
         [2, 3],
         ["notgt", "notlt", "le", "notne", "cyc", "chainonly", "nechainonly", "missing", "dup", "both", "neconst",
-         "ltmix", "nechainlit", "ltchainlit", "gtrev", "revne"],
+         "ltmix", "nechainlit", "ltchainlit", "gtrev", "revne", "mixedboth"],
     ):
-        if k == 2 and style in ("chainonly", "nechainonly", "missing", "nechainlit", "ltchainlit", "ltmix"):
+        if k == 2 and style in ("chainonly", "nechainonly", "missing", "nechainlit", "ltchainlit", "ltmix", "mixedboth"):
             continue
         for head in ([":-", "h(X)"] if style in ("notgt", "notlt", "cyc", "le", "ltmix") else [":-"] if k == 2 else ["h(X)"]):
             d, inn = defs("input" if head == ":-" else "choice")
@@ -442,10 +448,12 @@ def programs():
         "rule": lambda j: stmt("h(X)", j),
         "agg": lambda j: stmt("h", ["1 <= #count { X : " + ", ".join(j) + " }"]),
     }
-    for dm in ["choice", "choicecond", "bounded", "derived", "derived2", "recursive", "negcycle", "aggdep", "choice+input",
+    for dm in ["choice", "choicecond", "derived", "derived2", "recursive", "negcycle", "aggdep", "choice+input",
                "derived+input", "facts3"]:
         for k, cname, style in [(2, "constraint", "ne"), (2, "agg", "ne"), (3, "rule", "ne"), (2, "rule", "lt"), (3, "agg", "lt")]:
             pos = "first" if dm not in ("choicecond", "derived2") or k == 2 else "last"
+            if dm.endswith("+input"):
+                pos = "last"
             d, inn = defs(dm, pos)
             add(d + [ctxs[cname](body_of(k, style, pos))], f"def-{dm}", inn)
     d, inn = defs("selfrec")
